@@ -183,8 +183,17 @@ func (c *config) gen(t target, keys ...any) *valgen.Gen {
 // build creates a fresh generated struct holding the value of d.
 func build(t target, d *dynamicpb.Message) (any, error) {
 	g := t.pkg.New(d.Descriptor().FullName())
+	var extRaw []byte
+	if extInUnknown {
+		d, extRaw = splitExtensions(d)
+	}
 	if err := t.pkg.FromDynamic(d, g); err != nil {
 		return nil, err
+	}
+	if len(extRaw) > 0 {
+		r := bridge.Reflect(g)
+		r.SetUnknown(append(append(protoreflect.RawFields(nil), r.GetUnknown()...), extRaw...))
+		extInUnknownPoked++
 	}
 	if emptyNonNil {
 		pokeEmpty(reflect.ValueOf(g), d.Descriptor(), 0)
